@@ -286,6 +286,10 @@ def find_item(src, kind, name, impl_filter=None, in_test=False):
             if not impls or norm(impl_filter) not in impls[-1]:
                 continue
         cands.append(it)
+    if len(cands) > 1 and impl_filter not in (None, '-', ''):
+        exact = [it for it in cands if norm([h for (k, h) in it.ctx if k in ('impl', 'trait')][-1]).endswith(norm(impl_filter))]
+        if len(exact) == 1:
+            cands = exact
     if len(cands) != 1:
         raise ScanError(f'{kind} {name} (impl filter {impl_filter!r}): {len(cands)} candidates')
     return cands[0]
